@@ -113,6 +113,25 @@ structure Device where
   is_output : Bool
   deriving DecidableEq, Repr, Inhabited
 
+/-- an object as frozen.py sees it: its class (by name) and its instance dict (`vars(obj)`, of whatever kind `V`) -/
+structure PyObj (V : Type) where
+  cls : String
+  vars : V
+
+/-- `isinstance(obj, C)` with the table class ↦ names in its method resolution order -/
+def isInstance {V : Type} (mro : List (String × List String)) (o : PyObj V) (c : String) : Bool :=
+  match mro.find? (fun p => p.1 == o.cls) with
+  | some p => p.2.contains c
+  | none => o.cls == c
+
+/-- None is an instance of no class -/
+def optIsInstance {V : Type} (mro : List (String × List String)) (o : Option (PyObj V)) (c : String) : Bool :=
+  match o with | some x => isInstance mro x c | none => false
+
+/-- `vars(None)` / a method call on None raise -/
+def optObj {V : Type} (o : Option (PyObj V)) : Except Err (PyObj V) :=
+  match o with | some x => .ok x | none => .error .TypeError
+
 /-- the keyword arguments of a call as the dict `**kwargs` binds them to: name ↦ None or a string, in insertion order -/
 abbrev KwArgs := List (String × Option String)
 
